@@ -42,6 +42,29 @@ def itemMatches (e : FilterItem) (id : Nat) : Bool :=
   | some p => if p != J1939.priority id then false else itemM2 e id
   | none => itemM2 e id
 
+/-- one translated check `[entry field, id accessor, compared as Some(..)]` of `FilterItem::matches`: passes when the field
+is unspecified or equal to what the accessor reads from the identifier -/
+def checkT (e : FilterItem) (id : Nat) : List Nat → Option Bool
+  | [field, accessor, opt] =>
+    let fld? : Option (Option Nat) :=
+      if field = 0 then some e.priority else if field = 1 then some e.pgn else if field = 2 then some e.source
+      else if field = 3 then some e.destination else none
+    let got? : Option (Option Nat) :=
+      if accessor = 0 ∧ opt = 0 then some (some (J1939.priority id)) else if accessor = 1 ∧ opt = 0 then some (some (J1939.pgn id))
+      else if accessor = 2 ∧ opt = 0 then some (some (J1939.source id))
+      else if accessor = 3 ∧ opt = 1 then some (J1939.destination? id) else none
+    match fld?, got? with
+    | some none, some _ => some true
+    | some (some x), some got => some (some x == got)
+    | _, _ => none
+  | _ => none
+
+/-- the translated `FilterItem::matches`: every check in the table passes (`none` = a row without a meaning here) -/
+def itemMatchesT (table : List (List Nat)) (e : FilterItem) (id : Nat) : Option Bool :=
+  table.foldr (fun row acc => match checkT e id row, acc with
+    | some a, some b => some (a && b)
+    | _, _ => none) (some true)
+
 structure Filter where
   items : List FilterItem
   accept : Bool
